@@ -52,6 +52,8 @@ def cases(rng, tier):
         yield padded_case(rng)
     # deterministic schedules with the interlock off: faults next to producers / consumers / ecalls, ecall-rich programs
     # (arguments set up one and two slots before the call are NOT yet visible), discarded-result instructions
+    for prog, regs in rvgen.long_programs(rng, tier):
+        yield rvgen.long_case(prog, regs, "five", False, suite="sim-five-nohazard")
     for prog, regs in rvgen.fault_schedule_programs():
         lines = rvgen.header("five", False, "-", "-", prog, regs, []) + ["sim.snap"]
         for _ in range(14):
